@@ -35,7 +35,7 @@ func init() {
 	register("C08", propMeta{
 		Level: "other",
 		Explanation: "Semantic equivalence of compiler and source is translation validation and is not decided. Decided clauses: R08a a compiled program shared through the cache is never mutated: no value derived from Program.{Instructions,Resources,Sources,NeededBalances} (or Machine.UnresolvedResources / Machine.Program) is the target of an element store, map update, append, copy, delete or sort outside package compiler, and shared *MonetaryInt values are immutable (R01c); " +
-			"R08b the cache key is a digest of the whole script text and what is returned for a key is what was stored under it; R08c opcode tables agree: OP_* constants = cases of Machine.tick = cases of OpcodeName, every emitted opcode is one of them, and the operand width written by the compiler (Address.ToBytes) equals the width OP_APUSH consumes; R08d the static type discipline is applied: the type returned by VisitExpr/VisitVariable/VisitLit is compared or propagated at every call site (frozen exceptions: polymorphic consumers, and VisitMonetary which checks the same expression first); R08e the address VisitExpr returns for push=false is used as the value only for types that have no compound form (the compound types are read from VisitExpr's own returns), otherwise only for the asset (OP_ASSET / needed balances); R01f (shared with C01) the owners of the balance book-keeping debit exactly what they hand out — `sources are drained in written order` is computed on those tracked balances; R08j a type check of the compiler cannot be walked around: from every call whose static type is compared with a type constant, each path to a successful return passes an edge on which the type equals a constant; R08i every number text of a script or variable is parsed with the constant base 10 (big.Int.SetString, strconv.ParseInt/ParseUint in the machine packages); R08h an arithmetic opcode is emitted only on paths where the static types of both operands were compared equal to the operand type of the opcode; R08g the subtraction opcodes compute (value popped second) − (value popped first), the order in which the compiler pushed the operands; R08f the text of a composite parse-tree node (a generated context type with a child-rule accessor; antlr concatenates its tokens without the skipped white space) never identifies the node: in package compiler it reaches no map key, map lookup or equality test between nodes.",
+			"R08b the cache key is a digest of the whole script text and what is returned for a key is what was stored under it; R08c opcode tables agree: OP_* constants = cases of Machine.tick = cases of OpcodeName, every emitted opcode is one of them, and the operand width written by the compiler (Address.ToBytes) equals the width OP_APUSH consumes; R08d the static type discipline is applied: the type returned by VisitExpr/VisitVariable/VisitLit is compared or propagated at every call site (frozen exceptions: polymorphic consumers, and VisitMonetary which checks the same expression first); R08e the address VisitExpr returns for push=false is used as the value only for types that have no compound form (the compound types are read from VisitExpr's own returns), otherwise only for the asset (OP_ASSET / needed balances); R01f (shared with C01) the owners of the balance book-keeping debit exactly what they hand out — `sources are drained in written order` is computed on those tracked balances; R08l the lexer and the parser built by the compiler are both given its collecting error listener (a text with characters outside the alphabet is refused, not silently trimmed); R08j a type check of the compiler cannot be walked around: from every call whose static type is compared with a type constant, each path to a successful return passes an edge on which the type equals a constant; R08i every number text of a script or variable is parsed with the constant base 10 (big.Int.SetString, strconv.ParseInt/ParseUint in the machine packages); R08h an arithmetic opcode is emitted only on paths where the static types of both operands were compared equal to the operand type of the opcode; R08g the subtraction opcodes compute (value popped second) − (value popped first), the order in which the compiler pushed the operands; R08f the text of a composite parse-tree node (a generated context type with a child-rule accessor; antlr concatenates its tokens without the skipped white space) never identifies the node: in package compiler it reaches no map key, map lookup or equality test between nodes.",
 		NotDecided:  "that the emitted instruction sequence implements each statement; resource ordering; exactness of arithmetic.",
 		Trusted:     []string{"gcache returns the value stored under the key", "sha256"},
 	}, func(c *Ctx) {
@@ -50,12 +50,13 @@ func init() {
 		ruleR08h(c, "R08h")
 		ruleDecimalParses(c, "R08i", 1)
 		ruleR08j(c, "R08j", 10)
+		ruleRecognizersReportErrors(c, "R08l")
 		ruleR01f(c)
 	})
 	register("C12", propMeta{
 		Level: "other",
 		Explanation: "Sound panic-freedom is out of reach (indexing, assertions whose safety is a compiler↔VM invariant). Decided clauses tied to the mechanisms the property names: R12a every write into the per-account balance map goes through a checked lookup (comma-ok / owner that creates the entry), frozen exception repay; R12b the registry of balance variables awaiting resolution is keyed by the resource index (injective); " +
-			"R12c the VM terminates: every store to Machine.P adds a positive constant, every path of tick that reports `not finished` advanced P, Execute leaves its loop when tick reports finished, and every iteration of ResolveResources appends exactly one resource or returns; R12d nothing is left behind: no store to package-level variables in internal/machine/** and internal/engine/command outside initialisers, shared programs are not mutated (R08a) and shared amounts (machine.Zero, constants of a cached program, stored balances) are never modified in place (R12f: mutating big.Int methods only on freshly allocated receivers); R12e compile-time type checks are applied (R08d); R12g no error returned by a function of the compiler is dropped by its caller; R12h a pointer-typed variable value is shown non-nil before it is stored (JSON null). The explicit panics reachable from compile/run are listed in the evidence (informational). R12j: the account lock taken for an execution is released on every exit of the executor, error returns of ResolveBalances and vm.Run included (the lock-span path rule R02a of C02, read here for its `released-on-every-exit` obligations: a lock left behind blocks every later execution on those accounts). R12l: where the compiler compares the static type of a sub-expression with a type constant, every path from that call to a successful return passes an edge on which the type equals a constant (a weakened `!= T && …` test lets a script of the wrong type through to a type assertion of the machine). R12k: command.Compiler stores into its cache only behind the nil test of the compilation error (no nil program under the digest of a script that does not compile). R12i: in the machine packages every math/big division (NewRat, SetFrac, Quo, Inv, Div, Rem, Mod …) and integer / or % has a divisor that is a non-zero constant, a Rat.Denom(), or a value tested in a dominating branch.",
+			"R12c the VM terminates: every store to Machine.P adds a positive constant, every path of tick that reports `not finished` advanced P, Execute leaves its loop when tick reports finished, and every iteration of ResolveResources appends exactly one resource or returns; R12d nothing is left behind: no store to package-level variables in internal/machine/** and internal/engine/command outside initialisers, shared programs are not mutated (R08a) and shared amounts (machine.Zero, constants of a cached program, stored balances) are never modified in place (R12f: mutating big.Int methods only on freshly allocated receivers); R12e compile-time type checks are applied (R08d); R12g no error returned by a function of the compiler is dropped by its caller; R12h a pointer-typed variable value is shown non-nil before it is stored (JSON null). The explicit panics reachable from compile/run are listed in the evidence (informational). R12j: the account lock taken for an execution is released on every exit of the executor, error returns of ResolveBalances and vm.Run included (the lock-span path rule R02a of C02, read here for its `released-on-every-exit` obligations: a lock left behind blocks every later execution on those accounts). R12m: an arithmetic opcode is emitted only for operands whose static types were both compared equal to its operand type (R08h; otherwise the typed pop panics). R12n: lexer and parser report to the collecting listener. R12l: where the compiler compares the static type of a sub-expression with a type constant, every path from that call to a successful return passes an edge on which the type equals a constant (a weakened `!= T && …` test lets a script of the wrong type through to a type assertion of the machine). R12k: command.Compiler stores into its cache only behind the nil test of the compilation error (no nil program under the digest of a script that does not compile). R12i: in the machine packages every math/big division (NewRat, SetFrac, Quo, Inv, Div, Rem, Mod …) and integer / or % has a divisor that is a non-zero constant, a Rat.Denom(), or a value tested in a dominating branch.",
 		NotDecided:  "the ANTLR parser; index/slice bounds; nil dereferences other than the balance-map ones; JSON variable parsing.",
 		Trusted:     []string{"go/ssa"},
 	}, func(c *Ctx) {
@@ -72,6 +73,8 @@ func init() {
 		ruleR02a(c, "R12j")
 		ruleCacheOnlyCompiled(c, "R12k")
 		ruleR08j(c, "R12l", 10)
+		ruleR08h(c, "R12m")
+		ruleRecognizersReportErrors(c, "R12n")
 		listPanics(c)
 	})
 }
